@@ -9,6 +9,7 @@ ordinary harness crate."""
 import os
 import shutil
 
+from props import e2e
 from translate import pyglue_sig
 from vlib import common as C
 from vlib import runner
@@ -98,6 +99,9 @@ SPEC = dict(
     ml_modules=["pyglue_model"],
     ocaml_packages=("str", "zarith"),
     translate=pyglue_sig.translate,
+    # thorough tier: the theorems of coq/e2e/E2EPyCore.v (core record instantiated with the stripe / score / scan
+    # models; history hypotheses and scan_stable discharged) count as composed obligations of C17
+    **e2e.PY_EXTRA,
     n={"quick": 3000, "thorough": 24000},
     search_n={"quick": 4000, "thorough": 30000},
     nontrivial=nontrivial,
